@@ -105,6 +105,59 @@ def domain_skip(spec, table):
         return why
     if na_false_undefined(spec, table):
         return "ignore_na=False with a predicate that is true on NaN (pandas) / null on null (polars): undefined"
+    return temporal_cross_kind(spec, table) or coercion_outside_shared_semantics(spec, table)
+
+
+def temporal_cross_kind(spec, table):
+    """a column that is parsed (coerced / default-filled) between a temporal and a non-temporal type: what number a
+    timestamp becomes (nanoseconds in pandas, micro- or nanoseconds in polars) and what a numeric default does to a
+    datetime column is each backend's own convention, not something a schema states"""
+    import re
+
+    tcs = {t["name"]: t for t in table["columns"]}
+    for col in spec["columns"]:
+        parsed = col.get("coerce") or spec.get("coerce") or col.get("default") is not None
+        if not parsed or col.get("dtype") is None:
+            continue
+        names = [n for n in tcs if re.match(col["name"], str(n))] if col.get("regex") else [col["name"]]
+        for n in names:
+            t = tcs.get(n)
+            if t is not None and (t["phys"] == "datetime64[ns]") != (col["dtype"] == "datetime64[ns]"):
+                return "parsing between a temporal and a non-temporal type (backend-specific epoch unit)"
+    return None
+
+
+_PHYS_OF = {"int64": "int64", "float64": "float64", "str": "object", "bool": "bool", "datetime64[ns]": "datetime64[ns]"}
+
+
+def coercion_outside_shared_semantics(spec, table):
+    """coerce=True on a column whose data is of another type is only compared between the backends for conversions both
+    define alike: integral floats -> int (no nulls), ints -> float, digit strings -> int, ints -> str.  What a fractional
+    float, a null or free text becomes under a cast is each engine's convention (C10 checks each engine on its own)."""
+    import re
+
+    tcs = {t["name"]: t for t in table["columns"]}
+    for col in spec["columns"]:
+        if not (col.get("coerce") or spec.get("coerce")) or col.get("dtype") not in _PHYS_OF:
+            continue
+        names = [n for n in tcs if re.match(col["name"], str(n))] if col.get("regex") else [col["name"]]
+        for n in names:
+            t = tcs.get(n)
+            if t is None or t["phys"] == _PHYS_OF[col["dtype"]]:
+                continue
+            cells, dt, ph = t["cells"], col["dtype"], t["phys"]
+            nonnull = [c for c in cells if c is not None]
+            ok = False
+            if dt == "int64" and ph == "float64":
+                ok = len(nonnull) == len(cells) and all(float(c).is_integer() for c in nonnull)
+            elif dt == "float64" and ph == "int64":
+                ok = len(nonnull) == len(cells)
+            elif dt == "int64" and ph == "object":
+                ok = all(isinstance(c, str) and re.fullmatch(r"-?\d{1,15}", c) for c in nonnull)
+            elif dt == "str" and ph == "int64":
+                ok = len(nonnull) == len(cells)
+            if not ok:
+                return "coercion between types whose conversion is the backend's own convention"
     return None
 
 
@@ -850,6 +903,18 @@ def _kf_c06_shape(family, case, disc):
     return (family == "polars_inputs" and _drop(case) and disc.kind.startswith("internal-exception:ShapeError@")
             and disc.kind.split("@")[1] in ("backends/polars/base.py:drop_invalid_rows", "api/polars/container.py:validate")
             and (bool(case.get("opts")) or bool(_scalar_checks(case))))
+
+
+@known.finding("C06/polars-default-of-another-type-than-the-data-column-leaks-polars-error")
+def _kf_c06_default_supertype(family, case, disc):
+    """set_default builds col.fill_null(lit(default, dtype=schema dtype)) for every (regex-)matched column; on a data
+    column of an unrelated type (bool column, datetime default) polars cannot even plan the expression"""
+    if family != "polars_inputs" or not disc.kind.startswith("internal-exception:"):
+        return False
+    d = disc.detail if isinstance(disc.detail, dict) else {}
+    if "supertype" not in str(d.get("msg")) or "default" not in (d.get("features") or []):
+        return False
+    return any(c.get("default") is not None for c in case["spec"]["columns"])
 
 
 @known.finding("C02/polars-unique_values_eq-counts-null-as-a-value")
